@@ -35,150 +35,29 @@ def run(model: Model, rep: Report, tier: str) -> None:
         "pipeline (C04) and normalize_marginalize (R13.4) are re-run. The value identity is the paper's theorem."
     )
     rep.trusted_base = ["Shpitser & Pearl 2008 (IDC soundness)", "C01/C02 rules for ID (re-run)", "C04 rules for the separation oracle (re-run)", "C14"]
-    rep.floors = {"R3.1": 1, "R3.2": 1, "R3.3": 1, "R3.4": 1, "R1.1": 7, "R4.1": 1, "R4.2": 1, "R13.4": 2}
-    sa = make_sa()
-    n = var("%n")
-    # ---------------------------------------------------------------- R3.1
-    f = model.func(RULE2)
-    ev = Evaluator(model, primitives=set(ID_PRIMS) | {IDENTIFY, CI}, prim_methods=set(ID_PRIM_METHODS))
-    ident = typed(ev, "identification", ("cls", IDENT))
-    z = typed(ev, "condition", ("cls", VARIABLE))
-    ref = Ref(ident)
-    G, X, Y = ref.G, ref.X, ref.Y
-    Z = ("attr", ref.q, "conditions")
-    rets = return_paths(ev.run(f, {"identification": ident, "condition": z}))
-    problems = []
-    from .idcommon import quantifier_of, witness_normalise
-    v = quantifier_of(rets)
-    if v is None:
-        problems.append(f"{len(rets)} return paths")
-    else:
-        if v[0] != "all":
-            problems.append("rule 2 must hold for ALL outcomes" + (" (it is tested with any(): a condition separated from one outcome only would be exchanged)" if v[0] == "any" else ""))
-        comp = v[1] if v[0] in ("all", "any") else None
-        if not (comp and comp[0] == "comp" and len(comp[3]) == 1):
-            problems.append("not a quantified separation test")
-        else:
-            y_, it, conds = comp[3][0]
-            if sa.canon_top(("setof", it)) != sa.canon_top(("setof", Y)) or conds:
-                problems.append("the quantifier does not range over exactly the outcomes")
-            call = comp[2]
-            while call[0] == "truth":
-                call = call[1]
-            if not (call[0] == "call" and call[1] == CI):
-                problems.append("the test is not are_d_separated")
-            else:
-                kw = kwargs_of(call)
-                if {kw.get("a"), kw.get("b")} != {y_, z}:
-                    problems.append("separation is not tested between the outcome and the condition")
-                # conditioning set
-                want = f_or(sa.member(n, X), f_and(sa.member(n, Z), f_not(sa.eq_atom(n, z))))
-                eq, row, _ = compare(sa.member(n, kw.get("conditions")), want)
-                if not eq:
-                    problems.append(f"the conditioning set is not X ∪ (Z ∖ {{z}}): differs for a node with [{show_row(row)}]")
-                # graph: remove_in_edges(X) and remove_out_edges({z}) of G, in either order
-                g = sa.rewrite(kw.get("graph"))
-                ops = []
-                while g[0] == "meth" and g[2] in ("remove_in_edges", "remove_out_edges", "remove_nodes_from", "subgraph"):
-                    ops.append((g[2], kwargs_of(g).get("vertices")))
-                    g = g[1]
-                opd = dict(ops)
-                if g != G or len(ops) != 2 or set(opd) != {"remove_in_edges", "remove_out_edges"}:
-                    problems.append("the test graph is not G with two surgeries (edges into X removed, edges out of z removed): " + short(show(kw.get("graph")), 160))
-                else:
-                    if not compare(sa.member(n, opd["remove_in_edges"]), sa.member(n, X))[0]:
-                        problems.append("incoming edges are removed for " + short(show(opd["remove_in_edges"]).replace("identification.", ""), 60) + ", not for the treatments X (G_X̄ is required)")
-                    roe = opd["remove_out_edges"]
-                    if roe == z:
-                        roe = ("setlit", (z,))
-                    if not compare(sa.member(n, roe), sa.eq_atom(n, z))[0]:
-                        problems.append("outgoing edges are removed for " + short(show(opd["remove_out_edges"]).replace("identification.", ""), 60) + ", not for the condition z")
-    (rep.refuted if problems else rep.proven)("R3.1", construct(f, "rule-2"), "; ".join(problems), loc(f), sample={"test": short(show(rets[0].value), 500) if rets else ""})
-    # ---------------------------------------------------------------- R3.2 / R3.3 / R3.4
-    f = model.func(IDC)
-    ev = Evaluator(model, primitives=set(ID_PRIMS) | {IDENTIFY, CI, RULE2}, prim_methods=set(ID_PRIM_METHODS))
-    ident = typed(ev, "identification", ("cls", IDENT))
-    ref = Ref(ident)
-    G, X, Y, P = ref.G, ref.X, ref.Y, ref.P
-    Z = ("attr", ref.q, "conditions")
-    paths = [witness_normalise(p_) for p_ in ev.run(f, {"identification": ident})]
-    p2, p3, p4 = [], [], []
-    seen_rec = seen_base = False
-    for p in paths:
-        if p.kind == "raise":
-            cls = exc_class(p)
-            if cls == "Unidentifiable":
-                continue
-            fm = f_and(*[sa.cond(sa.rewrite(c)) for c in p.conds])
-            if compare(fm, False)[0]:
-                continue
-            p4.append(f"idc() can fail with {cls} when [{short(show_formula(fm), 200)}]")
-            continue
-        v = sa.rewrite(p.value)
-        if v[0] == "op" and v[1] == "/" and v[3][0] == "meth" and v[3][2] == "marginalize" and v[3][1] == v[2]:
-            # e / e.marginalize(r) is e.normalize_marginalize(r)  (that identity is R13.4's obligation for normalize_marginalize)
-            r_ = kwargs_of(v[3]).get("ranges", v[3][3][0] if v[3][3] else None)
-            v = ("meth", v[2], "normalize_marginalize", (), (("ranges", r_),))
-        if v[0] == "recurse" and v[1] == IDC:
-            seen_rec = True
-            zs = [c[1] for c in p.conds if c[0] == "iter-elem"]
-            if len(zs) != 1 or sa.canon_top(("setof", [c[2] for c in p.conds if c[0] == "iter-elem"][0])) != sa.canon_top(("setof", Z)):
-                p2.append("the exchanged variable is not drawn from the conditions")
-                continue
-            zz = zs[0]
-            if not any(c[0] == "call" and c[1] == RULE2 and kwargs_of(c).get("condition") == zz and kwargs_of(c).get("identification") == ident for c in p.conds):
-                p2.append("the exchange is not guarded by rule 2 for that very condition")
-            i2 = v[2][0]
-            if i2[0] != "IDENT":
-                p2.append("recursion is not on an Identification")
-                continue
-            q = i2[1]
-            kwq = _query_fields(p.value)
-            checks = (("outcomes", q[1], sa.member(n, Y)), ("treatments", q[2], f_or(sa.member(n, X), sa.eq_atom(n, zz))),
-                      ("conditions", kwq.get("conditions"), f_and(sa.member(n, Z), f_not(sa.eq_atom(n, zz)))))
-            for nm, got, want in checks:
-                if got is None or not compare(sa.member(n, got), want)[0]:
-                    p2.append(f"after the exchange the {nm} are not " + {"outcomes": "Y", "treatments": "X ∪ {z}", "conditions": "Z ∖ {z}"}[nm])
-            if i2[2] != G:
-                p2.append("the exchange changes the graph")
-            if i2[3] != P:
-                p2.append("the exchange changes the estimand")
-        elif v[0] == "meth" and v[2] == "normalize_marginalize":
-            seen_base = True
-            inner = v[1]
-            rng = kwargs_of(v).get("ranges")
-            if not compare(sa.member(n, rng), sa.member(n, Y))[0]:
-                p3.append("the joint effect is normalised by a sum over " + short(show(rng).replace("identification.", ""), 60) + ", not over the outcomes Y: P(y,z|do x)/Σ_y P(y,z|do x) is required")
-            if not (inner[0] == "call" and inner[1] == IDENTIFY):
-                p3.append("the base case does not call identify")
-            else:
-                i3 = sa.rewrite(kwargs_of(inner).get("identification"))
-                if i3[0] != "IDENT":
-                    p3.append("identify is not called on an Identification")
-                else:
-                    if not compare(sa.member(n, i3[1][1]), f_or(sa.member(n, Y), sa.member(n, Z)))[0]:
-                        p3.append("the base case does not identify the joint of outcomes and remaining conditions (Y ∪ Z)")
-                    if not compare(sa.member(n, i3[1][2]), sa.member(n, X))[0]:
-                        p3.append("the base case changes the treatments")
-                    if i3[2] != G or i3[3] != P:
-                        p3.append("the base case changes graph or estimand")
-            if not any(c[0] == "forall-not" for c in p.conds):
-                p3.append("the base case is reached without having tried every condition")
-        else:
-            p3.append("unexpected result of idc: " + short(show(p.value), 160))
-    if not seen_rec:
-        p2.append("idc never exchanges a condition for an action")
-    if not seen_base:
-        p3.append("idc has no base case")
-    (rep.refuted if p2 else rep.proven)("R3.2", construct(f, "exchange"), "; ".join(sorted(set(p2))), loc(f))
-    (rep.refuted if p3 else rep.proven)("R3.3", construct(f, "base-case"), "; ".join(sorted(set(p3))), loc(f))
-    (rep.refuted if p4 else rep.proven)("R3.4", construct(f, "only-Unidentifiable-escapes"), "; ".join(sorted(set(p4))), loc(f))
+    rep.floors = {"R3.1": 1, "R3.2": 1, "R1.1": 1, "R4.1": 1, "R4.2": 1, "R13.4": 2}
+    from ..refcmp import load_reference, run_table
+    from .common import graph_rewrite, rewriter
+    from .idcommon import id_rewrite
+
+    load_reference(model, "yvref.c03", "c03_ref.py")
+    V = ("cls", VARIABLE)
+    I = ("cls", IDENT)
+
+    def mk(model_, prims):
+        return lambda: Evaluator(model_, primitives=set(ID_PRIMS) | set(prims), prim_methods=set(ID_PRIM_METHODS))
+
+    table = [
+        ("R3.1", RULE2, "rule_2", {"identification": I, "condition": V}, (IDENTIFY, CI), "rule-2",
+         "for ALL outcomes y: y is separated from z given X ∪ (Z∖{z}) in G with the edges into X and the edges out of z removed"),
+        ("R3.2", IDC, "idc_algorithm", {"identification": I}, (IDENTIFY, CI, RULE2), "exchange-and-base-case",
+         "the first condition passing rule 2 becomes an action -- (Y, X ∪ {z}, Z∖{z}) on the same graph and distribution --; when none does, "
+         "ID on (Y ∪ Z, X) divided by its sum over Y; nothing but ID's refusal escapes"),
+    ]
+    run_table(model, rep, table, "yvref.c03", mk, SetAlg(rewriter(graph_rewrite, id_rewrite)), construct=construct, loc=loc)
     # ---------------------------------------------------------------- inherited
     c01.r1_0(model, rep)
-    fi, ev1, ident1, paths1, impl, results, sa1, ref1 = c01.match_lines(model, rep)
-    for name, (best, rf, rv) in results.items():
-        ok = best is not None and best[1] and best[2]
-        (rep.proven if ok else rep.refuted)("R1.1", construct(fi, name), "" if ok else f"ID {name} deviates from the published line (details under C01)", loc(fi))
+    c01.r1_1(model, rep)
     c04.analyse_are_d_separated(model, rep)
     classes = concrete_expression_classes(model)
     c13.r13_4_marginalize(model, rep, classes)
